@@ -14,7 +14,7 @@ BASE_ENUM = ("enum", "E0", (("e0", 0), ("e1", 1)))
 IDENTS = ("u8x", "i2c_msg", "f32x", "strx", "Optionalx", "structure", "mod_", "A", "a_b1", "implx", "enum_", "u", "i", "f", "_x", "as_", "version1", "signalx", "methodx", "returnsx", "u123", "f321")
 VALUE_FORMS = (0, 7, -3, 18446744073709551615, 9007199254740993, -9223372036854775807, 2.0, 1e+16, 1.5, -2.5e-3, 1e10, "", "txt", "a b", "\u00b5s \u03a9", "x//y", "p/*q*/r", ("id", "ident1"), ("id", "u8"), [1], [1, 2], [("id", "a"), "s", -1.5], [[1, 2], [3]], [[1], [2, [3]]], [], [[], [1]])
 RANGE_FORMS = ((-1.5, 2000.0), (0.0, 1.0), (1e-3, 1e5), (-1e-7, -0.0), (0, 10), (-5, 5.5), (1e-05, 1e16))
-UNITS = ("m/s", "", "\u00b0C", "deg C", "%", "a,b", "\u03a9\u00b7m \u20ac")
+UNITS = ("m/s", "", "\u00b0C", "deg C", "%", "a,b", "\u03a9\u00b7m \u20ac", 'in\\"', 'say \\"hi\\"', "back\\\\slash")
 
 
 def _wrappers(t):
@@ -94,6 +94,11 @@ def descriptions(tier):
     ):
         for sid in (0, 3):
             out.append(("service", [BASE_STRUCT, s2, ("service", "Svc", sid, methods)]))
+    # ids and sizes at the byte boundaries INSIDE the u32 slots of the record
+    for sid, mid in ((255, 256), (256, 255), (65535, 65536), (65536, 65535), (2147483648, 4294967295), (4294967295, 2147483647)):
+        out.append(("service", [BASE_STRUCT, s2, ("service", "Svc", sid, (("m", mid, "B0", "B1"), ("n", 0, "B1", "B0")))]))
+    for size in (255, 256, 65535, 65536, 4294967295):
+        out.append(("array-size-in-u32", [("struct", "S", (("arr", 0, ("arr", U(8), size), None, None), ("b", 70000, U(16), None, None)))]))
     out.append(("service2", [BASE_STRUCT, s2, ("service", "Svc", 0, (("m", 0, "B0", "B1"),)), ("service", "Tvc", 1, (("m", 0, "B1", "B0"),))]))
     for fields in (
         (("services", [("id", "Svc")]),),
